@@ -1746,3 +1746,214 @@ class C20(Check):
                 if raised is None or self.count_solver_calls() != n0:
                     self.slice_ok["fault-matrix"] = False
                     self.violation("SplineMethod accepted %s dynamics" % ("nonlinear" if fault == 'spline_nonlinear' else "time-varying"), {"fault": fault}, {"kind": "fault-accepted", "fault": fault, "method": "spline"})
+
+
+def sym_offsets(sizes):
+    off, out = 0, []
+    for n in sizes:
+        out.append(off)
+        off += n
+    return out
+
+
+@register
+class C10(Check):
+    pid = "C10"
+    slices = ["starting-point", "nlp-unchanged-by-guesses"]
+
+    def explanation(self):
+        return ("theorems: last call wins / frame property of the guess store; the interval loop (final node first, then every interval) "
+                "leaves each control interval with its own value; guesses are not an argument of the NLP function; times used are the "
+                "guessed grid's node / interval-start / integrator / root times. correspondence: opti.debug.value(opti.x, opti.initial()) "
+                "read back in physical units through the sampling API vs the model's start values for constants, vectors, n×N and n×(N+1) "
+                "arrays (DM and numpy), expressions of time, for states, controls, variables of each grid kind, algebraics, free T/t0, "
+                "helper states of DirectCollocation, localized grid variables; guesses before or after transcription; NLP rows and "
+                "objective unchanged by guesses")
+
+    def gen_guess(self, kind, n, N, allow_expr=True, allow_cols=True):
+        rng = self.rng
+        forms = ['scalar', 'vector'] + (['colsN', 'colsN1'] if allow_cols else []) + (['expr'] if allow_expr else [])
+        if kind in ('vcp',):
+            forms = [f for f in forms if f != 'colsN']
+        if kind in ('u', 'vc'):
+            pass
+        f = rng.choice(forms)
+        val = lambda: rng.randint(-12, 12) / 4.0
+        if f == 'scalar':
+            c = val()
+            return ('num', [c] * n) if n > 1 or rng.random() < 0.5 else ('num', [c]), [('const', Fr(c))] * n
+        if f == 'vector':
+            cs = [val() for _ in range(n)]
+            return ('num', cs), [('const', Fr(c)) for c in cs]
+        if f in ('colsN', 'colsN1'):
+            m = N if f == 'colsN' else N + 1
+            arr = [[val() for _ in range(m)] for _ in range(n)]
+            return (rng.choice(['np', 'dm']), arr), [('cols', [Fr(v) for v in row]) for row in arr]
+        es = [('+', ('*', Mo.E.C(G.coef(rng)), ('t',)), ('*', Mo.E.C(G.coef(rng)), ('*', ('t',), ('t',)))) if rng.random() < 0.5 else
+              ('+', ('*', Mo.E.C(G.coef(rng)), ('t',)), Mo.E.C(G.coef(rng))) for _ in range(n)]
+        return ('expr', es), [('expr', e) for e in es]
+
+    def correspondence(self):
+        import casadi as ca
+        import numpy as np
+        n = 110 if self.tier == 'quick' else 1200
+        prof = {'methods': ALLM + [('ss', 'euler')], 'grids': FIXED_GRIDS + ['free', 'uniform_locT', 'uniform_locT0', 'geometric_locT'],
+                'horizon': ['num', 'freeT', 'freet0', 'freeboth', 'param'], 'obj_kinds': ['at_tf', 'integral'], 'ncons': (0, 1),
+                'features': {'dae': 0.3, 'v': 0.5, 'vc': 0.5, 'vcp': 0.5, 'p': 0.5}, 'Ns': [1, 2, 3, 4], 'Ms': [1, 2, 3], 'degrees': [1, 2, 3]}
+        forced = 20 if self.tier == 'quick' else 200
+        for it in range(n + forced):
+            force = it >= n     # dedicated cases: expression of time first, horizon guess last, after transcription
+            p2 = dict(prof)
+            if force:
+                p2['horizon'] = ['freeT', 'freet0', 'freeboth']
+                p2['grids'] = FIXED_GRIDS
+            desc = G.gen_case(self.rng, p2)
+            m = desc['method']
+            N = m['N']
+            calls = []      # (kind, symbol index, python guess, per-component model guesses)
+            targets = [('x', i, sz) for i, sz in enumerate(desc['states'])] + [('u', i, sz) for i, sz in enumerate(desc['controls'])] + \
+                      [('v', i, sz) for i, sz in enumerate(desc['vars'][''])] + [('vc', i, sz) for i, sz in enumerate(desc['vars']['control'])] + \
+                      [('vcp', i, sz) for i, sz in enumerate(desc['vars']['control+'])]
+            if m['kind'] == 'dc':
+                targets += [('z', i, sz) for i, sz in enumerate(desc['algs'])]
+            for _k in range(self.rng.randint(1, 5)):
+                kind, i, sz = self.rng.choice(targets)
+                py, comps = self.gen_guess(kind, sz, N, allow_expr=(kind != 'v'), allow_cols=(kind not in ('v', 'z')))
+                if force and _k == 0:
+                    kind, i, sz = self.rng.choice([t_ for t_ in targets if t_[0] in ('x', 'u')])
+                    es = [('+', ('*', Mo.E.C(G.coef(self.rng)), ('t',)), Mo.E.C(G.coef(self.rng))) for _r in range(sz)]
+                    py, comps = ('expr', es), [('expr', e) for e in es]
+                calls.append((kind, i, py, comps))
+            hat = {}
+            for key in ('T', 't0'):
+                if desc[key][0] == 'free':
+                    hat[key] = desc[key][1]
+                    if force or self.rng.random() < 0.5:
+                        v = Fr(self.rng.randint(1, 9), 2)
+                        # often last: a horizon guess given after expressions of time is the interesting order
+                        pos = len(calls) if (force or self.rng.random() < 0.5) else self.rng.randint(0, len(calls))
+                        calls.insert(pos, (key, 0, ('num', [float(v)]), None))
+                        hat[key] = v
+            before = (self.rng.random() < 0.5) and not force
+            try:
+                b = B.build(desc, transcribe=False)
+                with B.quiet():
+                    if not before:
+                        b.ocp._transcribed
+                    for kind, i, py, comps in calls:
+                        form, val = py
+                        g = (kind, i, ('num', val)) if form == 'num' else ((kind, i, ('np', val)) if form == 'np' else ((kind, i, ('num', val)) if form == 'dm' else (kind, i, ('expr', val))))
+                        B.apply_guess(b, g)
+                    b.ocp._transcribed
+                    B.finish(b)
+                    x0 = ca.DM(b.opti.debug.value(b.opti.x, b.opti.initial())).full().flatten().tolist()
+                pv = current_p(b)
+                if b.free:
+                    self.count("skipped:inactive-variable")
+                    continue        # a declared variable that is in neither f nor g has no slot in opti.x (CasADi): its start cannot be read back
+                fv = None
+                phys = B.eval_phys(b, [Fr(v) for v in x0], pv, fv)
+            except (ZeroDivisionError, OverflowError):
+                continue
+            except Exception as ex:
+                feats = {"kind": "exception", "exc": type(ex).__name__, "method": m['kind'],
+                         "state_array_under_dc": m['kind'] == 'dc' and any(k == 'x' and py[0] in ('np', 'dm') for k, i, py, c_ in calls)}
+                self.slice_ok["starting-point"] = False
+                self.violation("set_initial / transcription raised %s: %s (guesses %s, %s transcription)" % (type(ex).__name__, str(ex)[:200], [(k, i, py[0]) for k, i, py, c_ in calls], "before" if before else "after"),
+                               {"desc": desc, "calls": [(k, i, py) for k, i, py, c_ in calls]}, feats)
+                if len(self.violations) > 4:
+                    return
+                continue
+            # model
+            for key in ('T', 't0'):
+                if key not in hat:
+                    hat[key] = phys[key][0][0]
+            L = Mo.desc_lines(desc)
+            L += ["T " + Mo.R(hat['T']), "t0 " + Mo.R(hat['t0'])]
+            if 'P' in phys:
+                L.append("P " + Mo.rats(phys['P'][0]))
+            offs = {'x': sym_offsets(desc['states']), 'u': sym_offsets(desc['controls']), 'z': sym_offsets(desc['algs']), 'v': sym_offsets(desc['vars']['']),
+                    'vc': sym_offsets(desc['vars']['control']), 'vcp': sym_offsets(desc['vars']['control+'])}
+            for kind, i, py, comps in calls:
+                if comps is None:
+                    continue
+                for r_, (form, val) in enumerate(comps):
+                    slot = offs[kind][i] + r_
+                    if form == 'const':
+                        L.append("g %s %d const %s" % (kind, slot, Mo.R(val)))
+                    elif form == 'cols':
+                        L.append("g %s %d cols %s" % (kind, slot, Mo.rats(val)))
+                    else:
+                        L.append("g %s %d expr %s" % (kind, slot, Mo.E.to_tokens(val)))
+            self.driver.send(L)
+            out = self.driver.run("start %d %d %d %d" % (sum(desc['controls']), sum(desc['vars']['']), sum(desc['vars']['control']), sum(desc['vars']['control+'])))
+            model = {}
+            for l in out:
+                t = l.split()
+                if t[0] in ('X', 'U', 'Vc', 'Vcp', 'Xi'):
+                    model[(t[0], int(t[1]))] = [Mo.frac(v) for v in t[2:]]
+                elif t[0] in ('Xc', 'Zc'):
+                    model[(t[0], int(t[1]), int(t[2]))] = [Mo.frac(v) for v in t[3:]]
+                else:
+                    model[(t[0],)] = [Mo.frac(v) for v in t[1:]]
+            self.evaluations += 1
+            self.signatures.add(repr((G.signature(desc)[:6], [(k, i, py[0]) for k, i, py, c_ in calls], before)))
+            self.count("guesses-before" if before else "guesses-after")
+            for k, i, py, c_ in calls:
+                self.count("guess:%s:%s" % (k, py[0]))
+            if len(self.samples) < 3:
+                self.samples.append({"method": m, "guesses": [(k, i, py[0]) for k, i, py, c_ in calls], "order": "before" if before else "after"})
+            bad = None
+
+            def cmp(name, mv, iv):
+                for a, b_ in zip(mv, iv):
+                    if abs(float(a) - float(b_)) > 1e-9 * max(1.0, abs(float(a))):
+                        return "%s starts at %s, the guess gives %s" % (name, [float(v) for v in iv], [float(v) for v in mv])
+                return None
+            d_ = m.get('degree', 0)
+            # horizon and localized grid variables first: everything time-dependent is evaluated on them
+            bad = bad or cmp("T", [hat['T']], phys['T'][0]) or cmp("t0", [hat['t0']], phys['t0'][0])
+            if 't0l' in phys:
+                bad = bad or cmp("local start times", model[('t0l',)][1:], phys['t0l'][0][1:])
+            if 'Tl' in phys:
+                st = 0 if m['grid']['kind'] == 'free' else 1
+                bad = bad or cmp("local interval lengths", model[('Tl',)][st:], phys['Tl'][0][st:])
+            for k in range(N + 1):
+                if m['kind'] != 'ss' or k == 0:
+                    bad = bad or cmp("state at node %d" % k, model[('X', k)], phys['X'][k])
+                if 'Vcp' in phys:
+                    bad = bad or cmp("control+ variable at node %d" % k, model[('Vcp', k)], phys['Vcp'][k])
+            for k in range(N):
+                if 'U' in phys:
+                    bad = bad or cmp("control on interval %d" % k, model[('U', k)], phys['U'][k])
+                if 'Vc' in phys:
+                    bad = bad or cmp("control variable on interval %d" % k, model[('Vc', k)], phys['Vc'][k])
+            if 'V' in phys:
+                bad = bad or cmp("global variable", model[('V',)], phys['V'][0])
+            if m['kind'] == 'dc':
+                for idx in range(N * m['M']):
+                    bad = bad or cmp("helper start state of step %d" % idx, model[('Xi', idx)], phys['Xi'][idx])
+                    for j in range(d_):
+                        bad = bad or cmp("helper state (%d,%d)" % (idx, j), model[('Xc', idx, j)], phys['Xc'][idx * d_ + j])
+                        if 'Zc' in phys:
+                            bad = bad or cmp("algebraic value (%d,%d)" % (idx, j), model[('Zc', idx, j)], phys['Zc'][idx * d_ + j])
+            if bad:
+                self.slice_ok["starting-point"] = False
+                feats = {"kind": "start", "what": bad.split(' starts')[0].rstrip('0123456789 ,()'), "order": "before" if before else "after",
+                         "horizon_guess_given": any(k in ('T', 't0') for k, i, py, c_ in calls)}
+                self.violation(bad + " (guesses %s, given %s transcription)" % ([(k, i, py[0]) for k, i, py, c_ in calls], "before" if before else "after"),
+                               {"desc": desc, "calls": [(k, i, py) for k, i, py, c_ in calls], "order": "before" if before else "after"}, feats)
+                if len(self.violations) > 4:
+                    return
+                continue
+            # guesses never change the objective or constraints
+            try:
+                b0 = B.build(desc)
+                xv, pv2, _ = En.rand_point(self.rng, b0)
+                msg = impl_vs_impl(self, b, b0, xv, pv2, pv2, "with vs without guesses")
+            except (ZeroDivisionError, OverflowError):
+                msg = None
+            if msg:
+                self.slice_ok["nlp-unchanged-by-guesses"] = False
+                self.violation(msg, {"desc": desc}, {"kind": "guess-changes-nlp"})
+                return
